@@ -309,3 +309,23 @@ Lemma netstrings_example_proof :
   = ([Str [104; 101; 108; 108; 111; 32; 119; 111; 114; 108; 100; 33]; Str []]%N, Some (tt, [])).
 Proof. reflexivity. 
 Qed.
+
+(** the SEND clause for lines: sendLine writes the line followed by the delimiter, nothing else ... *)
+Lemma sendline_wire_form_proof : forall delim l, send_line delim l = l ++ delim.
+Proof. reflexivity. Qed.
+
+(** ... and a receiver of the same class, however the bytes are cut, gets back exactly that line -- for EVERY line that does not
+    contain the delimiter ([clean]): trailing CR, LF, LF CR or any proper prefix of the delimiter included *)
+Lemma line_sent_is_received_proof : forall max delim l cs, delim <> [] -> clean delim l -> length l <= max ->
+  chunks cs (send_line delim l) ->
+  run (lr_feed max delim) init cs = ([Line l], Some (tt, [])) /\ run (lo_feed max delim) init cs = ([Line l], Some (tt, [])).
+Proof.
+  intros max delim l cs Hne Hc Hl Hch.
+  assert (H : run (lr_feed max delim) init cs = ([Line l], Some (tt, []))).
+  { apply (lines_sent_are_received_any_segmentation_proof max delim [l] [] cs Hne).
+    - constructor; [split; assumption | constructor].
+    - destruct delim; [congruence | reflexivity].
+    - destruct delim; [congruence | simpl; lia].
+    - simpl. rewrite !app_nil_r. exact Hch. }
+  split; [exact H|]. rewrite lo_run_is_lr_run by assumption. exact H.
+Qed.
